@@ -36,6 +36,10 @@ class CompileError(Exception):
         self.exc = exc
 
 
+def tv_to_np(a):
+    return a.detach().cpu().numpy() if hasattr(a, 'detach') else a
+
+
 def scratch_dir():
     base = os.environ.get('TMPDIR') or tempfile.gettempdir()
     os.makedirs(base, exist_ok=True)
@@ -180,7 +184,7 @@ def load_python(c: Compiled, binding: Optional[Binding] = None, extra_globals=No
 
 def run_symbolic(c: Compiled, binding: Binding, y_sym=None, t_sym=None, hist=None, skip=(), overrides=None):
     """Execute the emitted Python text on symbols.  Returns (output array, sargs)."""
-    ny = int(np.size(c.args[1]))
+    ny = int(np.asarray(tv_to_np(c.args[1])).size)
     if y_sym is None:
         y_sym = symx.symarray('y', ny)
     if t_sym is None:
@@ -211,16 +215,24 @@ def float_args(c: Compiled, env: Dict[str, float], binding: Binding, y_names: Li
             args.append(t_value)
             continue
         if pos == 1:
-            args.append(np.array([env.get(n, 0.25) for n in y_names], dtype=float))
+            yv = np.array([env.get(n, 0.25) for n in y_names], dtype=float)
+            if hasattr(c.args[1], 'detach') and hasattr(c.args[1], 'clone'):
+                import torch
+                yv = torch.from_numpy(yv)
+            args.append(yv)
             continue
         if callable(a) and not isinstance(a, np.ndarray):
             args.append(hist_fn if hist_fn is not None else a)
             continue
-        arr = np.array(a, copy=True)
+        is_torch = hasattr(a, 'detach') and hasattr(a, 'clone')
+        arr = np.array(a.detach().cpu().numpy() if is_torch else a, copy=True)
         if arr.dtype.kind == 'f':
             for ix in np.ndindex(*arr.shape):
                 n = slot.get((k, ix))
                 if n is not None and n in env:
                     arr[ix] = env[n]
+        if is_torch:
+            import torch
+            arr = torch.from_numpy(np.ascontiguousarray(arr))
         args.append(arr)
     return args
